@@ -66,6 +66,13 @@ type Prop struct {
 	FixedLayout bool
 	// NoOracle marks lines that are not sent to the twin (real-only observation lines).
 	RealOnly func(line string) bool
+	// Match decides whether the twin's answer admits the implementation's answer for a line
+	// (nil = string equality).  For lines whose real outcome is legitimately non-deterministic the
+	// twin answers with the set of outcomes and Match checks membership.
+	Match func(line, realOut, twinOut string) bool
+	// Reset, when non-empty, is sent to the twin before every case (answer ignored): stateful twins
+	// must not carry state into a case whose own init line was shrunk away.
+	Reset string
 }
 
 // Failure is one reported problem.
@@ -169,6 +176,9 @@ func runCase(p *Prop, o *oracle.O, c Case) outcome {
 	out := outcome{c: c, disLine: -1}
 	r := p.NewReal()
 	defer r.Close()
+	if o != nil && p.Reset != "" {
+		_, _ = o.Ask(p.Reset)
+	}
 	for i, ln := range c.Script {
 		ro := r.Exec(ln)
 		out.real = append(out.real, ro)
@@ -178,7 +188,11 @@ func runCase(p *Prop, o *oracle.O, c Case) outcome {
 				to = "oracle-error " + err.Error()
 			}
 			out.twin = append(out.twin, to)
-			if to != ro && out.disLine < 0 {
+			same := to == ro
+			if !same && p.Match != nil && !strings.HasPrefix(to, "oracle-error") {
+				same = p.Match(ln, ro, to)
+			}
+			if !same && out.disLine < 0 {
 				out.disLine = i
 			}
 		} else {
